@@ -187,6 +187,9 @@ def run(ctx):
     answers = [f for f in fails if f["hist"][f["fails"][0][0]]["op"] not in ("split", "combine", "merge")]
     ctx.cov["structure_failures_left_to_C15"] = len(fails) - len(answers)
     SC.report_failures(ctx, "C12", answers)
+    # floating-point values: feasible, pairwise distinct AS VALUES (+0 / -0 are two, NaN is one), complete
+    from lib import solver_fpenum
+    solver_fpenum.run(ctx, "C12", ["SolverComposite"])
     # the model of class CompositeFrontend (Claripy/Solver/Composite.lean, what C12_children_partition / C12_add_keeps_partition /
     # C12_satisfiable_correct are about) against the real class: same histories, answer + bookkeeping compared after every call
     from lib import solver_composite_corr as CC
@@ -194,4 +197,7 @@ def run(ctx):
 
 
 def replay(ctx, obj):
+    if obj["replay"].get("kind") == "fpenum":
+        from lib import solver_fpenum
+        return solver_fpenum.replay("C12", obj["replay"])
     return SC.replay_history("C12", obj)
